@@ -291,6 +291,13 @@ func mutateAt(root interface{}, path jpath, how string, repl interface{}) interf
 		case "dup":
 			x[k+"_dup"] = deepCopy(x[k])
 			x[strings.ToUpper(k)] = deepCopy(x[k]) // encoding/json matches keys case-insensitively
+		case "rename":
+			// the member under another name (the blank name among them: free-form objects - tiers, mappings, revocations,
+			// data - take any name the token gives)
+			if nk, ok := repl.(string); ok && nk != k {
+				x[nk] = x[k]
+				delete(x, k)
+			}
 		}
 	case []interface{}:
 		i := last.(int)
@@ -440,6 +447,14 @@ func runC11(c *Ctx) {
 						how  string
 						repl interface{}
 					}{"replace", r})
+				}
+				if _, isMember := append(jpath{0}, p...)[len(p)].(string); isMember {
+					for _, nk := range []string{"", "a b.>"} {
+						muts = append(muts, struct {
+							how  string
+							repl interface{}
+						}{"rename", nk})
+					}
 				}
 				// arrays additionally get duplicated entries (first entry again at the end; the whole list twice)
 				if arr, isArr := nodeAt(tree, p).([]interface{}); isArr && len(arr) > 0 {
